@@ -289,6 +289,17 @@ def check(pid, tier, seed):
                 except Undecided as ex:
                     undecided.append(str(ex))
 
+    # ---- un-carved obligations of known findings (thorough tier, informational: a failure here is attributed to the KF)
+    uncarved = []
+    if tier == 'thorough' and not undecided:
+        for r0 in list(verus_runs):
+            if r0['meta'].get('known_clauses'):
+                try:
+                    ru = verus_unit(r0['spec'], r0['features'], known_off=True, suffix='_uncarved')
+                    uncarved.append({'unit': ru['unit'], 'known': r0['meta']['known_clauses'], 'verified': ru['verified'], 'errors': ru['errors'],
+                                     'failed_functions': sorted(set((f['function'] or '?').split(' :: ')[-1] for f in ru['failures']))})
+                except Undecided as ex:
+                    uncarved.append({'unit': r0['unit'], 'error': str(ex)[:300]})
     # ---- Kani harnesses
     harnesses = list(cfg.get('kani_quick', []))
     if tier == 'thorough':
@@ -433,6 +444,7 @@ def check(pid, tier, seed):
         'functions_not_under_contract': cfg.get('not_under_contract', []),
         'rewrites_applied': rewrites,
         'known_findings_reported': known_lines,
+        'uncarved_obligations_attempted': uncarved,
         'counterexample_search': search_runs,
         'undecided': undecided,
         'explanation': cfg.get('explanation', ''),
